@@ -958,9 +958,13 @@ def _native_setget_sweep(tier="quick", seed=0):
     def sweep(prs, label, per_key, rnd):
         """returns a description of a crash, if any; mismatches are collected in `found` under '<class>.<property>:<kind>'"""
         tg, _ = targets(prs, per_key)
+        last_of = {}
         for o, n, k in tg:
             spec = D[k]
             cls = type(o).__name__
+            # other properties of this very object may legitimately be one setting with this one (crosses / crosses_at, fill kinds ...)
+            for kk in [kk for kk, (po, _) in last_of.items() if kk != k and (po is o or getattr(po, "_element", None) is getattr(o, "_element", object()))]:
+                del last_of[kk]
             try:
                 prepare(o, k)
             except Exception:
@@ -1009,6 +1013,21 @@ def _native_setget_sweep(tier="quick", seed=0):
                     found.setdefault("%s.%s:changes-%s" % (k[0], n, ch[0]), "%s: %s.%s = %r changed the reading of %s from %r to %r" % (label, cls, n, v, ch[0], before[ch[0]], after[ch[0]]))
                     break
                 first = got
+            else:
+                # the object swept before this one for the same property still reads what it was left with (objects of one kind do
+                # not share the element that carries the value)
+                prev = last_of.get(k)
+                e_now = getattr(o, "_element", None)
+                if prev is not None and prev[0] is not o and e_now is not None and getattr(prev[0], "_element", None) is not e_now:
+                    try:
+                        again = getattr(prev[0], n)
+                        if not _same(again, prev[1], spec.get("tol", 0)):
+                            found.setdefault("%s.%s:changed-by-another-object" % (k[0], n), "%s: %s.%s was left reading %r; after assignments to the same property of another %s it reads %r" % (
+                                label, cls, n, prev[1], cls, again))
+                    except Exception as e:
+                        found.setdefault("%s.%s:changed-by-another-object" % (k[0], n), "%s: %s.%s was left reading %r; after assignments to the same property of another %s reading raises %r" % (
+                            label, cls, n, prev[1], cls, e))
+                last_of[k] = (o, first)
         # values outside the documented domain
         for o, n, k in tg:
             spec = D[k]
